@@ -64,7 +64,7 @@ theorem ladder_all {p : Row → Prop} : ∀ (bs : List BV) (b : BV), b.All p →
     simp only [ladder]
     exact ladder_all xs (.node b x) ⟨hb, hx x (List.mem_cons_self)⟩ (fun y hy => hx y (List.mem_cons_of_mem _ hy))
 
-theorem foldRows_spec {ws : List Nat} {n : Nat} (hws : ws.length = n) : ∀ (rs : List Row) (bvs : List BV) (L : Row) (B : BV)
+theorem foldRows_spec {ws : List Nat} {n : Nat} (hws : n ≤ ws.length) : ∀ (rs : List Row) (bvs : List BV) (L : Row) (B : BV)
     (sc : Nat) (bc : List Nat), RowsOk n rs bvs → L.length = n → (∀ c, c < n → L.getD c 0 = (fitch (col c B)).1) →
     bc.length = n → ∃ row sc' bc',
       foldRows ws L rs sc bc = .ok (row, sc', bc') ∧ row.length = n ∧ bc'.length = n ∧ sc' + sumL bc = sc + sumL bc' ∧
@@ -117,7 +117,7 @@ def GoodBVL (m : Matrix) (ws : List Nat) (n : Nat) (cs : List T) (bvs : List BV)
 mutual
 /-- **polytomies**: any tree that `toBV` can read (no unary node, every leaf has a row) behaves, character by character, as
     Fitch on its ladder resolution -/
-theorem good_T {m : Matrix} {ws : List Nat} {n : Nat} (hws : ws.length = n)
+theorem good_T {m : Matrix} {ws : List Nat} {n : Nat} (hws : n ≤ ws.length)
     (hm : ∀ k row, getAttr m k = some row → row.length = n ∧ ∀ s, s ∈ row → s ≠ 0) :
     ∀ (t : T) (bv : BV), toBV m t = some bv → GoodBV m ws n t bv
   | .node i x l s cs, bv, h => by
@@ -179,7 +179,7 @@ theorem good_T {m : Matrix} {ws : List Nat} {n : Nat} (hws : ws.length = n)
           intro hcs
           subst hcs
           simp at hlen
-theorem good_TL {m : Matrix} {ws : List Nat} {n : Nat} (hws : ws.length = n)
+theorem good_TL {m : Matrix} {ws : List Nat} {n : Nat} (hws : n ≤ ws.length)
     (hm : ∀ k row, getAttr m k = some row → row.length = n ∧ ∀ s, s ∈ row → s ≠ 0) :
     ∀ (cs : List T) (bvs : List BV), toBVL m cs = some bvs → GoodBVL m ws n cs bvs
   | [], bvs, h => by
